@@ -14,9 +14,19 @@ import (
 var zzCurDoc *zzDoc
 
 func zzPutDoc(d *zzDoc) string {
-	govalidator.TagMap = map[string]govalidator.Validator{}
 	zzCurDoc = d
 	return "cfg.yaml"
+}
+
+// zzTagValidator: govalidator looks a tag's validator up in TagMap. The engine does not run
+// govalidator's initialiser, so the map holds exactly what go-upf's own code has registered by the
+// time ValidateStruct is called (the cidr validator): that function is executed; for the library's
+// own validators the classification table below stands in.
+func zzTagValidator(tag, s string, library func(string) bool) bool {
+	if f, ok := govalidator.TagMap[tag]; ok {
+		return f(s)
+	}
+	return library(s)
 }
 
 func zzDoneDoc(path string) { zzCurDoc = nil }
@@ -54,6 +64,8 @@ var zzClasses = map[string]zzClass{
 	"127.0.0.8/24":    {cidr: true},
 	"::1":             {host: true, ip: true},
 	"[1, 2]":          {},
+	"127.0.0.8 ":      {},
+	"10.60.0.0/16 ":   {},
 }
 
 func zzClassOf(s string) zzClass {
